@@ -33,6 +33,9 @@ TRUSTED_BASE = [
     'extraction of the model to OCaml with ExtrOcamlBasic only (Extract Inductive for bool, option, unit, list, prod, sumbool, sumor; no Extract Constant); nat/N/Z/string stay the extracted Coq datatypes; ocamlfind ocamlopt 4.13.1',
     'the harness: corpus generators (harness/corpus.py), item printers/serialisers (harness/items.py), ocaml/driver.ml (s-expression decoder), harness/verif_driver.rs (flattening of TokenStreams), comparison code',
     'syn/quote/proc-macro2 (parsing of the item and of token soup, split_for_impl, ToTokens) and rustc are outside the model',
+    'the two proc_macro entry wrappers (derive_where, derive_where_actual) are not modelled: exercised through rustc by the behaviour, diagnostics, trait-solver and hostile-scope probes',
+    'real-rustc probes (tie B behaviour, tie C diagnostics and -Zunpretty=expanded, tie D trait solver, tie E hostile scope / no_std, Miri in the thorough tier) are differential tests that validate the model against the code and search for failing inputs; they are not proofs',
+    'rustc 1.95 (stable) and the installed nightly (nightly feature set, Miri); cargo offline with the lockfile of /repo',
 ]
 
 
@@ -262,6 +265,19 @@ def tie_a(prop, tier, seed):
             if i.get('stageA') is not None:
                 stats['stage_a_compared'] = stats.get('stage_a_compared', 0) + 1
     stats['error_classes'] = classes
+    if prop == 'C12' and 'safe' in cfgs:
+        # the literal second sentence of C12 on the REAL expansions: no `unsafe` token under the `safe` feature
+        n = 0
+        for cid, it in cases:
+            i = ires['safe'].get(cid)
+            if i and i['status'] == 'ok':
+                n += 1
+                for k, toks in enumerate(i['impls']):
+                    if 'unsafe' in toks:
+                        dis.append(dict(kind='unsafe-under-safe', cfg='safe', case=cid, src=item_txt(it), impl_index=k,
+                                        at=toks.index('unsafe'), context=' '.join(toks[max(0, toks.index('unsafe') - 8):toks.index('unsafe') + 8])))
+                        break
+        stats['safe_expansions_scanned_for_unsafe'] = n
     import collections
     import cells
     by = {}
@@ -579,6 +595,9 @@ def check(prop, tier, seed):
     # a correspondence break that the behaviour run explains counts as found
     if found_cases:
         violations = [v for v in violations if v[1] or v[0].get('kind') != 'correspondence' or v[0]['disagreement']['case'] not in found_cases]
+    for n, (payload, found) in enumerate(violations):
+        if payload.get('kind') == 'correspondence' and payload['disagreement']['kind'] == 'unsafe-under-safe':
+            violations[n] = (payload, True)      # the item whose real expansion contains `unsafe` under `safe` is the failing input
     # accept/reject flips and panics ARE the failing input for the front-end properties
     for n, (payload, found) in enumerate(violations):
         if not found and payload.get('kind') == 'correspondence' and payload['disagreement']['kind'] == 'status' and prop in ('C15', 'C16', 'C02'):
